@@ -73,6 +73,10 @@ pub struct S {
     /// the root takes its children from a *handler* (command messages the driver sends first)
     /// instead of from started()
     pub late_registration: bool,
+    /// the outside holder of a child keeps it busy (a handler of two ticks), asks for its restart
+    /// and lets go - all at t=0, while the parent broadcasts and then ends: the child gets through
+    /// its restart and its queue before it stops
+    pub child_restarts: bool,
 }
 
 const PANIC_MSG: u32 = 700;
@@ -96,6 +100,11 @@ impl Scene for S {
             Cause::StoppedPanic => v[0].stopped_panic = true,
             Cause::TimeoutFail(_) => v[0].work.push((SLOW_MSG, Work { sleep: 5, ..Work::default() })),
             _ => {}
+        }
+        if self.child_restarts {
+            for n in self.nodes.iter().filter(|n| n.outside) {
+                v[n.role as usize].work.push((950, Work { sleep: 2, ..Work::default() }));
+            }
         }
         if self.pid == "C06" {
             // borrowed by C06: a child that "dies on its own" crashes (its handler panics)
@@ -195,7 +204,9 @@ impl Scene for S {
         let mut c = 2u8;
         for n in self.nodes.iter().filter(|n| n.outside) {
             let h = Handles::with_addr(addrs[n.role as usize].clone().unwrap());
-            let ops = if n.outside_stops && self.pid == "C06" {
+            let ops = if self.child_restarts {
+                vec![Op::Send(H::Addr(0), 950), Op::Restart(H::Addr(0)), Op::Drop(H::Addr(0))]
+            } else if n.outside_stops && self.pid == "C06" {
                 vec![Op::Send(H::Addr(0), PANIC_MSG), Op::Sleep(8), Op::Drop(H::Addr(0))]
             } else if n.outside_stops {
                 vec![Op::Stop(H::Addr(0)), Op::Sleep(8), Op::Drop(H::Addr(0))]
@@ -441,6 +452,20 @@ fn base_cases(tier: Tier) -> Vec<Case> {
         trees.push(vec![root, n(1, 0, Reg::Ty(1), false), n(2, 0, Reg::Ty(1), false), n(3, 1, Reg::Ty(1), false), n(4, 1, Reg::Add, true), n(5, 2, Reg::Ty(2), false)]);
     }
     let bsets: Vec<Vec<(u8, u32)>> = vec![vec![], vec![(1, 601)], vec![(1, 601), (2, 602)], vec![(1, 601), (1, 603)], vec![(1, 601), (1, 603), (1, 604), (1, 605)]];
+    // a child that is restarted from outside while it is busy and its parent comes to an end
+    for reg in [Reg::Ty(1), Reg::Both] {
+        let tree = vec![root, n(1, 0, reg, true), n(2, 0, Reg::Ty(1), false)];
+        for cause in [Cause::StopClient, Cause::LastDrop] {
+            for &mb in &[Mailbox::U, Mailbox::B(1)] {
+                v.push(Case {
+                    desc: format!("children [a busy child is restarted from outside] tree={} cause={:?} mailbox={}", tree_name(&tree), cause, mb.name()),
+                    exec: ExecCfg { horizon: 30, ..ExecCfg::default() },
+                    bound: Some(if tier == Tier::Quick { 4 } else { 7 }),
+                    scene: Box::new(S { nodes: tree.clone(), cause, bcasts: vec![(1, 601), (1, 603)], mailbox: mb, pid: "C16", restart_root: false, slow_stop: None, child_timers: false, late_registration: false, child_restarts: true }),
+                });
+            }
+        }
+    }
     // the unit message: add_child registers its children for it
     for tree in [vec![root, n(1, 0, Reg::Add, false), n(2, 0, Reg::Ty(1), false)], vec![root, n(1, 0, Reg::AddTy(2), false), n(2, 0, Reg::AddTwice, false)]] {
         for cause in [Cause::StopClient, Cause::LastDrop] {
@@ -450,7 +475,7 @@ fn base_cases(tier: Tier) -> Vec<Case> {
                         desc: format!("children [unit broadcasts] tree={} cause={:?} bcasts={:?} mailbox={}", tree_name(&tree), cause, bc, mb.name()),
                         exec: ExecCfg { horizon: 30, ..ExecCfg::default() },
                         bound: Some(if tier == Tier::Quick { 4 } else { 7 }),
-                        scene: Box::new(S { nodes: tree.clone(), cause, bcasts: bc.clone(), mailbox: mb, pid: "C16", restart_root: false, slow_stop: None, child_timers: false, late_registration: false }),
+                        scene: Box::new(S { nodes: tree.clone(), cause, bcasts: bc.clone(), mailbox: mb, pid: "C16", restart_root: false, slow_stop: None, child_timers: false, late_registration: false, child_restarts: false }),
                     });
                 }
             }
@@ -472,7 +497,7 @@ fn base_cases(tier: Tier) -> Vec<Case> {
                         desc: format!("children tree={} cause={:?} bcasts={:?} mailbox={}", tree_name(tree), cause, bc, mb.name()),
                         exec: ExecCfg { horizon: 30, cancel: if let Cause::Cancel(j) = cause { Some((root_spawn_index(tree), j)) } else { None }, ..ExecCfg::default() },
                         bound: if tree.len() >= 4 { Some(if tier == Tier::Quick { 3 } else { 5 }) } else if big { Some(if tier == Tier::Quick { 4 } else { 7 }) } else { None },
-                        scene: Box::new(S { nodes: tree.clone(), cause, bcasts: bc.clone(), mailbox: mb, pid: "C16", restart_root: false, slow_stop: None, child_timers: false, late_registration: false }),
+                        scene: Box::new(S { nodes: tree.clone(), cause, bcasts: bc.clone(), mailbox: mb, pid: "C16", restart_root: false, slow_stop: None, child_timers: false, late_registration: false, child_restarts: false }),
                     });
                     // parents whose stopped() takes a while and says goodbye to the children
                     if matches!(cause, Cause::StopClient | Cause::LastDrop) && bc.len() <= 1 {
@@ -480,7 +505,7 @@ fn base_cases(tier: Tier) -> Vec<Case> {
                             desc: format!("children [slow stopped() with a goodbye broadcast] tree={} cause={:?} bcasts={:?} mailbox={}", tree_name(tree), cause, bc, mb.name()),
                             exec: ExecCfg { horizon: 30, ..ExecCfg::default() },
                             bound: if tree.len() >= 4 { Some(if tier == Tier::Quick { 3 } else { 5 }) } else if big { Some(if tier == Tier::Quick { 4 } else { 7 }) } else { None },
-                            scene: Box::new(S { nodes: tree.clone(), cause, bcasts: bc.clone(), mailbox: mb, pid: "C16", restart_root: false, slow_stop: Some((1, 650)), child_timers: false, late_registration: false }),
+                            scene: Box::new(S { nodes: tree.clone(), cause, bcasts: bc.clone(), mailbox: mb, pid: "C16", restart_root: false, slow_stop: Some((1, 650)), child_timers: false, late_registration: false, child_restarts: false }),
                         });
                     }
                     // children taken from a handler instead of from started()
@@ -489,7 +514,7 @@ fn base_cases(tier: Tier) -> Vec<Case> {
                             desc: format!("children [registered from a handler] tree={} cause={:?} bcasts={:?} mailbox={}", tree_name(tree), cause, bc, mb.name()),
                             exec: ExecCfg { horizon: 30, ..ExecCfg::default() },
                             bound: if big { Some(if tier == Tier::Quick { 3 } else { 6 }) } else { None },
-                            scene: Box::new(S { nodes: tree.clone(), cause, bcasts: bc.clone(), mailbox: mb, pid: "C16", restart_root: false, slow_stop: None, child_timers: false, late_registration: true }),
+                            scene: Box::new(S { nodes: tree.clone(), cause, bcasts: bc.clone(), mailbox: mb, pid: "C16", restart_root: false, slow_stop: None, child_timers: false, late_registration: true, child_restarts: false }),
                         });
                     }
                     // children that run timers of their own
@@ -498,7 +523,7 @@ fn base_cases(tier: Tier) -> Vec<Case> {
                             desc: format!("children [children run timers] tree={} cause={:?} bcasts={:?} mailbox={}", tree_name(tree), cause, bc, mb.name()),
                             exec: ExecCfg { horizon: 5, ..ExecCfg::default() },
                             bound: Some(if tier == Tier::Quick { 4 } else { 7 }),
-                            scene: Box::new(S { nodes: tree.clone(), cause, bcasts: bc.clone(), mailbox: mb, pid: "C16", restart_root: false, slow_stop: None, child_timers: true, late_registration: false }),
+                            scene: Box::new(S { nodes: tree.clone(), cause, bcasts: bc.clone(), mailbox: mb, pid: "C16", restart_root: false, slow_stop: None, child_timers: true, late_registration: false, child_restarts: false }),
                         });
                     }
                     // the same with a restart of the root first
@@ -507,7 +532,7 @@ fn base_cases(tier: Tier) -> Vec<Case> {
                             desc: format!("children [root restarted first] tree={} cause={:?} bcasts={:?} mailbox={}", tree_name(tree), cause, bc, mb.name()),
                             exec: ExecCfg { horizon: 30, ..ExecCfg::default() },
                             bound: if big { Some(if tier == Tier::Quick { 4 } else { 7 }) } else { None },
-                            scene: Box::new(S { nodes: tree.clone(), cause, bcasts: bc.clone(), mailbox: mb, pid: "C16", restart_root: true, slow_stop: None, child_timers: false, late_registration: false }),
+                            scene: Box::new(S { nodes: tree.clone(), cause, bcasts: bc.clone(), mailbox: mb, pid: "C16", restart_root: true, slow_stop: None, child_timers: false, late_registration: false, child_restarts: false }),
                         });
                     }
                 }
@@ -524,8 +549,10 @@ pub fn root_spawn_index(tree: &[Node]) -> usize {
 
 fn cases(tier: Tier) -> Vec<Case> {
     // neutral re-configurations (see check::widen); a restart cannot be expressed on the stream loop
-    let no_restart = |d: &str| !d.contains("[root restarted first]");
-    crate::check::widen(&|| base_cases(tier), &|_| true, &|_| true, Some(&no_restart))
+    let no_restart = |d: &str| !d.contains("[root restarted first]") && !d.contains("is restarted from outside");
+    // (a child recreated from Default takes the harness' default role: the oracle follows roles)
+    let same_value = |d: &str| !d.contains("is restarted from outside");
+    crate::check::widen(&|| base_cases(tier), &|_| true, &same_value, Some(&no_restart))
 }
 
 pub fn property() -> Property {
